@@ -180,7 +180,7 @@ class Resolver:
                 es.append(("param", l) if fn.is_param(l) else ("uninit", l))
             else:
                 es.append(self._def_expr(d, depth + 1))
-        e = es[0] if len(es) == 1 else ("phi", es)
+        e = es[0] if len(es) == 1 else ("phi", es, l)
         self._memo[key] = e
         return e
 
@@ -291,11 +291,20 @@ def simplify(e):
     return e
 
 
+def peel_refs(e):
+    while e[0] in ("ref", "deref") or (e[0] == "cast" and isinstance(e[2], str) and e[2].startswith("&")):
+        e = e[1]
+    return e
+
+
 def peel(e, extra=()):
-    """strip refs, derefs, casts-free transparent calls: the underlying value source."""
+    """strip refs, derefs, reference-to-reference (unsizing) casts and transparent calls: the
+    underlying value source."""
     while True:
         k = e[0]
         if k in ("ref", "deref"):
+            e = e[1]
+        elif k == "cast" and isinstance(e[2], str) and e[2].startswith("&"):
             e = e[1]
         elif k == "call" and (is_transparent(e[1]) or (e[4] and is_transparent(e[4])) or e[1] in extra) and e[2]:
             e = e[2][0]
@@ -775,7 +784,7 @@ def peel_until_call(e, suffix):
     """peel refs/derefs/transparent calls, but stop at a call whose name matches suffix."""
     while True:
         k = e[0]
-        if k in ("ref", "deref"):
+        if k in ("ref", "deref") or (k == "cast" and isinstance(e[2], str) and e[2].startswith("&")):
             e = e[1]
         elif k == "call" and not _name_ok(e, suffix) and (is_transparent(e[1]) or (e[4] and is_transparent(e[4]))) and e[2]:
             e = e[2][0]
